@@ -220,7 +220,7 @@ func TestCheck(t *testing.T) {
 	timed("didweb_grammar", h.webGrammar)
 	timed("didweb_script_matrix", func() { h.webScriptMatrix("standalone", router) })
 	timed("round_trip", h.roundTrip)
-	timed("key_methods", func() { h.keyMethods(router, "standalone", r.Pick(700, 20000)) })
+	timed("key_methods", func() { h.keyMethods(router, "standalone", r.Pick(700, 8000)) })
 	timed("node_local_histories_and_chain", h.localHistories)
 	r.Extra("phase_seconds", phases)
 
